@@ -18,7 +18,7 @@ HERE = os.path.dirname(os.path.dirname(os.path.abspath(__file__)))
 # mutation self-tests against a scratch tree must not overwrite the real evidence
 EVID = os.environ.get("VERIF_EVIDENCE_DIR") or os.path.join(HERE, "evidence")
 REPLAYS = os.path.join(EVID, "replays")
-FINDINGS_FILE = os.path.join(HERE, "known_findings.json")
+FINDINGS_FILE = os.environ.get("VERIF_FINDINGS_FILE") or os.path.join(HERE, "known_findings.json")
 
 
 def _fatal_pred(prefixes):
